@@ -57,6 +57,7 @@ pub const MUTATORS: &[&str] = &[
     "truncate",
     "doctype-after-root",
     "entity-recursion",
+    "xmldecl-reorder",
     "lt-entity-in-attr",
     "unterminated-comment",
     "pe-reference",
@@ -398,6 +399,16 @@ fn apply(text: &str, name: &str, g: &mut Genes) -> Option<String> {
                 let k = cands[g.pick(cands.len())];
                 Some(format!("{}&rec;{}", &t[..k], &t[k..]))
             }
+        }
+        "xmldecl-reorder" => {
+            // [23] XMLDecl fixes the order version, encoding, standalone: trade two of them (adding what is missing)
+            let t = if text.starts_with("<?xml ") || text.starts_with("<?xml\t") {
+                let end = text.find("?>")?;
+                format!("{}{}", ["<?xml version='1.0' standalone='yes' encoding='UTF-8'", "<?xml encoding='UTF-8' version='1.0'", "<?xml standalone='no' version='1.0'", "<?xml version='1.0' encoding='UTF-8' standalone='yes' encoding='UTF-8'"][g.pick(4)], &text[end..])
+            } else {
+                format!("{}{}", ["<?xml version='1.0' standalone='yes' encoding='UTF-8'?>", "<?xml encoding='UTF-8' version='1.0'?>", "<?xml standalone='no' version='1.0'?>"][g.pick(3)], text)
+            };
+            Some(t)
         }
         "lt-entity-in-attr" => {
             // WFC No < in Attribute Values through an entity whose replacement text is markup that is fine in
